@@ -20,7 +20,7 @@ EXPLANATION = (
     "of DEHB's PAUSE decision contains no condition the resume path in _suggest does not test, synchronous Hyperband pauses "
     "every trial that reaches its milestone. NOT decided: the speculative early-removal scoring.")
 
-FLOOR = {"S1": 4, "S2": 3, "S3": 2, "S4": 4, "S5": 1, "S6": 3}
+FLOOR = {"S1": 4, "S2": 3, "S3": 2, "S4": 4, "S5": 1, "S6": 3, "S7": 3}
 
 
 def s1(ctx, rep):
@@ -351,6 +351,13 @@ def run(ctx, rep, tier="quick"):
     s4(ctx, rep)
     s5(ctx, rep)
     s7(ctx, rep)
+    # S7 a trial the scheduler paused gets no further result of the same poll delivered (the synchronous schedulers answer
+    # STOP for a trial that is no longer pending, and stop_trial deletes the checkpoint the promotion needs): shared with C02-S1
+    from . import c02
+    sub = type(rep)(rep.prop)
+    c02.s1(ctx, sub, clause="S7")
+    for i in sub.items:
+        rep.items.append(i)
     # S6 shared with C01-S3
     P = ctx.P
     tb = P.cls("TrialBackend")
